@@ -88,6 +88,10 @@ class Trace:
         self.record: list = []
         self.cache = None
         self.schedule: t.List[str] = []
+        self.is_child = False
+        self.child_pid = 0
+        self.child_rfd = -1
+        self.child_wfd = -1
 
 
 class _Resolver:
@@ -202,7 +206,12 @@ def execute_plan(plan: dict, kdf_limit: int = 300, keep_events: bool = False) ->
                 src = tr.ops[b["from_op"]]
                 blob = src.outcome.value if src.outcome and src.outcome.kind == "ok" else None
                 pt = src.plaintext
-                if blob is not None and b.get("relayout"):
+                if blob is not None and b.get("relayout") == "lib":
+                    # what LAPS-style callers do: the library's own re-pack with the ciphertext trailing the envelope
+                    from dpapi_ng._blob import DPAPINGBlob
+
+                    blob = bytes(DPAPINGBlob.unpack(blob).pack(blob_in_envelope=False))
+                elif blob is not None and b.get("relayout"):
                     blob = cms.relayout(blob, in_envelope=False)
                 ot.blob_spec = None
             else:
@@ -246,6 +255,27 @@ def execute_plan(plan: dict, kdf_limit: int = 300, keep_events: bool = False) ->
                 if kind == "identity":
                     ot = OpTrace(i, op)
                     dc.caller_sids = set(op["sids"])
+                    ot.outcome = drive.Outcome("ok", None)
+                    tr.ops.append(ot)
+                    i += 1
+                    continue
+                if kind == "fork":
+                    # the process forks (pre-fork server, multiprocessing): both halves go on with the remaining operations.
+                    # The kernel gives parent and child different randomness, so the child's simulated entropy source is re-keyed;
+                    # anything the library buffered before the fork is shared by both.
+                    ot = OpTrace(i, op)
+                    rfd, wfd = os.pipe()
+                    pid = os.fork()
+                    if pid == 0:
+                        os.close(rfd)
+                        tr.is_child = True
+                        tr.child_wfd = wfd
+                        world.entropy.seed = (world.entropy.seed * 1000003 + 0x5EED) & 0xFFFFFFFF
+                    else:
+                        os.close(wfd)
+                        tr.child_pid = pid
+                        tr.child_rfd = rfd
+                    world.stats["fork"] += 1
                     ot.outcome = drive.Outcome("ok", None)
                     tr.ops.append(ot)
                     i += 1
